@@ -21,6 +21,8 @@ func main() {
 		os.Exit(cmdCheck(os.Args[2:]))
 	case "lemmas":
 		cmdLemmas(os.Args[2:])
+	case "sweep":
+		cmdSweep(os.Args[2:])
 	default:
 		fmt.Fprintln(os.Stderr, "unknown command", os.Args[1])
 		os.Exit(2)
@@ -163,6 +165,56 @@ func cmdLemmas(args []string) {
 		}
 	}
 	if smtDir != "" && os.Getenv("GOVC_KEEP") == "" {
+		os.RemoveAll(smtDir)
+	}
+}
+
+// cmdSweep: generate and discharge obligations for every function of the named packages (developer tool).
+func cmdSweep(args []string) {
+	fs := flag.NewFlagSet("sweep", flag.ExitOnError)
+	repo := fs.String("repo", "/repo", "repository")
+	spec := fs.String("spec", "/verif/spec", "spec dir")
+	to := fs.Int("t", 5, "timeout seconds")
+	fs.Parse(args)
+	v, err := setup(*repo, *spec)
+	if err != nil {
+		fmt.Fprintln(os.Stderr, "setup:", err)
+		os.Exit(2)
+	}
+	var names []string
+	for n, fn := range v.prog.byName {
+		if !v.prog.inRepo(fn) || len(fn.Blocks) == 0 {
+			continue
+		}
+		for _, p := range fs.Args() {
+			if strings.HasPrefix(n, p) {
+				names = append(names, n)
+			}
+		}
+	}
+	sort.Strings(names)
+	for _, n := range names {
+		fn := v.prog.byName[n]
+		u := v.verifyFunction(fn)
+		rs := v.dischargeAll(u.obls, *to, false, 16)
+		bad := 0
+		var failed []string
+		for _, r := range rs {
+			if r.Status != "proved" && r.Status != "trivial" {
+				bad++
+				failed = append(failed, strings.TrimPrefix(r.Obl.Name, n+"#")+"("+r.Status[:1]+")")
+			}
+		}
+		status := "OK  "
+		if bad > 0 || len(u.errs) > 0 {
+			status = "FAIL"
+		}
+		fmt.Printf("%s %-55s obls=%3d bad=%2d %s\n", status, n, len(rs), bad, strings.Join(failed, " "))
+		for _, e := range u.errs {
+			fmt.Println("       ERR:", e)
+		}
+	}
+	if smtDir != "" {
 		os.RemoveAll(smtDir)
 	}
 }
